@@ -159,6 +159,26 @@ theorem malformed_codec_crash_counterexample :
     hasCrash (run cfg14 [stream [cmdPing], [36, 45, 50, 13, 10]]) = true ∧
     replyCount (run cfg14 [stream [cmdPing], [36, 45, 50, 13, 10]]) = 1 := by decide
 
+/-- PARTIAL — the third part of the statement holds for the code as it is, for ALL bytes that may
+    follow (garbage, truncated frames, frames that crash the recognisers or the decoder) and all
+    segmentations: the commands of the well-formed pipeline are executed exactly once, in order,
+    before anything else happens — a malformed frame never alters replies to earlier commands -/
+theorem malformed_keeps_earlier_partial (cfg : Config) (h14 : cfg.headerLen = 14)
+    (cmds : List Cmd) (junk : Bytes) (segs : List Bytes) (h : segs.flatten = stream cmds ++ junk)
+    (hs : Small (stream cmds ++ junk)) (hmax : (stream cmds ++ junk).length ≤ cfg.maxBuffer)
+    (hok : ∀ c ∈ cmds, CmdOK cfg.env c) :
+    (run cfg segs).take cmds.length = execAll cmds := by
+  obtain ⟨tail, ht⟩ := run_junk cfg h14 cmds junk segs h hs hmax hok
+  rw [ht]
+  have : (execAll cmds).length = cmds.length := by simp [execAll]
+  rw [← this, List.take_left']
+  rfl
+
+/-- non-vacuity: PING, then the frame that crashes the recogniser, cut in the middle -/
+example : CmdOK cfg14.env cmdPing ∧ Small (stream [cmdPing] ++ getHugeLen) ∧
+    hasCrash (run cfg14 [stream [cmdPing] ++ getHugeLen.take 20, getHugeLen.drop 20]) = true ∧
+    replyCount (run cfg14 [stream [cmdPing] ++ getHugeLen.take 20, getHugeLen.drop 20]) = 1 := by decide
+
 theorem malformed_is_error_counterexample : ¬ C04_malformed_is_error 14 := by
   intro h
   have := (h cfg14 rfl (by decide) [] getHugeLen [getHugeLen] (by simp [stream]) (by decide) (by decide)
